@@ -71,7 +71,7 @@ class C04(Config):
               "Local Open Scope N_scope.")
     bin = "c04"
     release_too = False
-    n_tags = 233
+    n_tags = 260
     shard_size = 30
     classes = {}
     harness_timeout = 1800
